@@ -390,6 +390,22 @@ impl Hooks for C16 {
     }
 
     fn before_commit(&mut self, w: &mut World) {
+        // genuine messages of a sibling group at the same epoch: another group id is something
+        // an observer can check
+        if !self.observers.is_empty() && self.rng.chance(1, 3) {
+            let signer = self.signer.clone();
+            let msgs = super::tamper::sibling_messages(w, &mut self.rng, &signer);
+            for (class, b) in msgs {
+                let class: &'static str = match class {
+                    "new_member_proposal_of_sibling_group" => "cross_group_new_member_proposal",
+                    "external_sender_proposal_of_sibling_group" => "cross_group_external_sender_proposal",
+                    "member_proposal_of_sibling_group" => "cross_group_member_proposal",
+                    "commit_of_sibling_group" => "cross_group_commit",
+                    _ => "cross_group_other",
+                };
+                self.negative(w, class, &b);
+            }
+        }
         // insider-forged commits that are invalid on grounds an observer can check
         let act = w.active();
         if act.len() < 3 || self.observers.is_empty() {
